@@ -16,6 +16,7 @@ pub mod h_transcript;
 pub mod h_vk_read;
 pub mod h_zkir;
 pub mod h_roundtrip;
+pub mod h_batch_fold;
 
 pub mod registry;
 
